@@ -32,7 +32,11 @@ def leaf(variant: dict) -> str:
 
 def mid(name_of_leaf: str, variant: dict, tag: str = 'm') -> str:
 	wrap = variant.get('wrap', 'plain')
-	lines = [f'from {name_of_leaf} import Item, Tone, base_val, make_item', '', '']
+	lines = ['from collections.abc import Callable', f'from {name_of_leaf} import Item, Tone, base_val, make_item', '', '']
+	# closures capturing several names: the order of a capture list is part of the emitted text
+	lines += [f'def {tag}_closure(n: int) -> int:', '\talpha = n + 1', '\tbeta = n + 2', '\tgamma = n + 3', '\tdelta = n + 4',
+		'\tdef inner(k: int) -> int:', '\t\treturn gamma + alpha + k + delta + beta', '',
+		'\tfn: Callable[[int], int] = lambda q: delta + q + alpha + gamma', '\treturn inner(1) + fn(2)', '', '']
 	if wrap == 'plain':
 		lines += [f'def {tag}_val() -> Item:', '\tv = base_val()', '\treturn Item(v, 2)', '', '']
 	elif wrap == 'list':
@@ -77,9 +81,9 @@ class HistProject:
 		self.pkg = pkg
 		self.variants: dict[str, dict] = {}
 		if shape == 'chain':
-			self.names = {'l': f'{pkg}.leaf', 'm': f'{pkg}.mid', 'r': f'{pkg}.root', 'u': f'{pkg}.lone'}
+			self.names = {'l': f'{pkg}.leaf', 'm': f'{pkg}.mid', 'r': f'{pkg}.root', 'u': f'{pkg}.leaf2'}  # 'leaf' is a prefix of the unrelated module's name
 		else:
-			self.names = {'l': f'{pkg}.leaf', 'a': f'{pkg}.mid_a', 'b': f'{pkg}.mid_b', 'r': f'{pkg}.root', 'u': f'{pkg}.lone'}
+			self.names = {'l': f'{pkg}.leaf', 'a': f'{pkg}.mid_a', 'b': f'{pkg}.mid_b', 'r': f'{pkg}.root', 'u': f'{pkg}.mid_a2'}  # 'mid_a' is a prefix of the unrelated module's name
 		for k in self.names:
 			self.variants[k] = {}
 
